@@ -102,7 +102,7 @@ def elem(t): return t[4:-1]
 TRANSPARENT = {'ParenExpr', 'ExprWithCleanups', 'MaterializeTemporaryExpr', 'CXXBindTemporaryExpr', 'ConstantExpr'}
 
 LIBM = {'sqrt', 'pow', 'exp', 'log', 'log10', 'floor', 'cos', 'sin', 'acos', 'erf', 'fabs', 'abs', 'tan', 'atan', 'atan2',
-        'erfc', 'tgamma', 'lgamma', 'ceil', 'round', 'asin', 'cosh', 'sinh', 'tanh', 'isnan', 'isinf', 'fmod', 'cbrt', 'log1p', 'expm1', 'trunc', 'isfinite', 'llround', 'lround'}
+        'erfc', 'tgamma', 'lgamma', 'ceil', 'round', 'asin', 'cosh', 'sinh', 'tanh', 'isnan', 'isinf', 'fmod', 'cbrt', 'log1p', 'expm1', 'trunc', 'isfinite', 'llround', 'lround', 'copysign'}
 STD_FUNCS = {'min', 'max', 'swap', 'min_element', 'max_element', 'accumulate', 'is_sorted', 'upper_bound', 'lower_bound',
              'distance', 'sort', 'unique', 'nth_element', 'exit', 'make_pair', 'move', 'printf', 'reverse', 'find', 'iota', 'to_string'}
 SEQ_METHODS = {'size', 'empty', 'push_back', 'back', 'front', 'clear', 'resize', 'assign', 'erase', 'insert', 'begin', 'end',
@@ -968,6 +968,7 @@ class Translator:
         # capture fields are unnamed in the AST; inside the body a captured variable is referred to as $<declared name>
         def cap_name(c):
             stack = [c]
+            if c.get('kind') == 'CXXThisExpr' or any(x.get('kind') == 'CXXThisExpr' for x in c.get('inner', [])): return 'this'
             while stack:
                 y = stack.pop()
                 rd = y.get('referencedDecl')
